@@ -4,7 +4,7 @@ from contracts import c19
 
 
 def main(tier):
-    return generic.run('C19', 'other', tier, c19, c19.PROGRAMS, c19.FUNCS, 'c19_transfer.py', 'mapping_and_transfer_vs_nearest_oracle',
+    return generic.run('C19', 'other', tier, c19, c19.programs(tier), c19.FUNCS, 'c19_transfer.py', 'mapping_and_transfer_vs_nearest_oracle',
         'pairs of geometries (coarse / fine rectangular, refinement, layer refinement, shifted, differently surfaced, rotated, shipped geometries) x 3x3 atmosphere types x conventions x 1..4 primary variables; '
         'block_mapping / layer_mapping against a brute-force nearest-centre oracle (ties never decide), self-identity, t2incon.transfer_from (exact states, atmosphere table, source unaltered), '
         't2data.transfer_from onto identical and refined geometries (generators, totals)',
